@@ -135,7 +135,8 @@ CHECKS = {
                            G("deploy-churn", "^TestC13Deploy$", 1, 2, env=dict(VERIF_C13_N="4,5", VERIF_C13_SHAPE="churn"), shrinktime="5s", timeout="20m"),
                            G("deploy-expiry-churn", "^TestC13Deploy$", 1, 3, env=dict(VERIF_C13_N="4,5,6", VERIF_C13_SHAPE="expiry-churn"), shrinktime="5s", timeout="20m"),
                            G("deploy-multi-cancel", "^TestC13Deploy$", 1, 3, env=dict(VERIF_C13_N="2,3,4", VERIF_C13_SHAPE="multi-cancel"), shrinktime="5s", timeout="20m"),
-                           G("deploy-late", "^TestC13Deploy$", 1, 2, env=dict(VERIF_C13_N="2,3,4", VERIF_C13_SHAPE="late"), shrinktime="5s", timeout="20m")]),
+                           G("deploy-late", "^TestC13Deploy$", 1, 2, env=dict(VERIF_C13_N="2,3,4", VERIF_C13_SHAPE="late"), shrinktime="5s", timeout="20m"),
+                           E("leader-outage", "^TestC13LeaderOutage$", 6, timeout="20m")]),
         thorough=dict(groups=[E("funds-exhaustive", "^TestC13FundsExhaustive$"), E("window-enumerated", "^TestC13WindowEnumerated$"), G("helpers-random", "^TestC13HelpersRandom$", 100000, 4),
                               E("regressions", "^TestC13Regressions$", 5, timeout="20m"), E("crash-points", "^TestC13CrashPoints$", 16, env=dict(VERIF_C13_CRASH_MAX1=60, VERIF_C13_CRASH_MAX2=160), timeout="60m"),
                               G("deploy-all-restart", "^TestC13Deploy$", 6, 4, env=dict(VERIF_C13_N="2,3,4", VERIF_C13_SHAPE="all-restart"), shrinktime="60s", timeout="120m"),
@@ -144,6 +145,7 @@ CHECKS = {
                               G("deploy-churn", "^TestC13Deploy$", 6, 4, env=dict(VERIF_C13_N="4,5,6,7", VERIF_C13_SHAPE="churn"), shrinktime="60s", timeout="120m"),
                               G("deploy-expiry-churn", "^TestC13Deploy$", 5, 6, env=dict(VERIF_C13_N="4,5,6,7", VERIF_C13_SHAPE="expiry-churn"), shrinktime="60s", timeout="120m"),
                               G("deploy-multi-cancel", "^TestC13Deploy$", 20, 10, env=dict(VERIF_C13_N="2,3,4,5,7", VERIF_C13_SHAPE="multi-cancel"), shrinktime="60s", timeout="120m"),
-                              G("deploy-late", "^TestC13Deploy$", 8, 6, env=dict(VERIF_C13_N="2,3,4,5,7", VERIF_C13_SHAPE="late"), shrinktime="60s", timeout="120m")]),
+                              G("deploy-late", "^TestC13Deploy$", 8, 6, env=dict(VERIF_C13_N="2,3,4,5,7", VERIF_C13_SHAPE="late"), shrinktime="60s", timeout="120m"),
+                              E("leader-outage", "^TestC13LeaderOutage$", 16, env=dict(VERIF_C13_LO_N="2,3,4,5", VERIF_C13_LO_OUT="30,100,125,140,200", VERIF_C13_LO_DELAY="0,1,2,3"), timeout="120m")]),
     ),
 }
